@@ -23,8 +23,10 @@
 (* handled), one per scheduler hand-over (Fire), one per executor task (Exec),  *)
 (* except that a control reconnection (ControlConnection._reconnect, or the run  *)
 (* of a _ControlReconnectionHandler) is a logical thread with one step per      *)
-(* connection attempt of its query-plan loop and one for _set_new_connection    *)
-(* (RcStep); Cluster.shutdown in three stretches.                               *)
+(* connection attempt of its query-plan loop, one where _reconnect_internal has  *)
+(* returned (_reconnect: _set_new_connection; handler: its _cancelled check) and *)
+(* one for the handler's on_reconnection + callback + close (RcStep);            *)
+(* Cluster.shutdown in three stretches.                                          *)
 (*                                                                              *)
 (* Environment.  `ring` is the true membership (every live node reports it in   *)
 (* system.local / system.peers); a membership change is pushed as NEW_NODE /    *)
@@ -45,6 +47,10 @@
 (*   D_func_dedup     FUNCTION / AGGREGATE schema events carry descriptor        *)
 (*                    objects without __eq__: schedule_unique never recognises   *)
 (*                    a repetition (breaks OnePending)                           *)
+(*   D_stale_clear    a handler cancelled and replaced after its `if not         *)
+(*                    self._cancelled` still runs its callback, which clears     *)
+(*                    _reconnection_handler - by now the newer handler, which    *)
+(*                    goes on unreferenced and uncancellable (breaks OneHandler) *)
 (* findings/XEVENTS_*.py reproduce them on the real classes.                    *)
 (*                                                                              *)
 (* Scenarios.  The bounds are fields of a record chosen in Init (sc), so that   *)
@@ -69,7 +75,7 @@ MaxRing     == sc.nring     \* membership changes per behaviour
 MaxFaults   == sc.faults    \* node stops/starts accepting, control connection deaths
 MaxBeats    == sc.beats     \* heartbeat notices
 
-Deviations == {"D_handler_close", "D_lost_refresh", "D_func_dedup"}
+Deviations == {"D_handler_close", "D_lost_refresh", "D_func_dedup", "D_stale_clear"}
 
 VARIABLES cs,          \* driver state, one record (fields below)
           ring,        \* true membership
@@ -94,23 +100,26 @@ em      == cs.em        \* what the last action emitted: policy notifications, s
 nrem    == cs.nrem      \* history: [Hosts -> Nat] times the host was removed from the metadata
 
 -----------------------------------------------------------------------------
-T(k, h, x, c) == [k |-> k, h |-> h, x |-> x, c |-> c]
-NoT            == T("none", 0, "", FALSE)
-TRefreshIf(h)  == T("RefreshIf", h, "", FALSE)    \* _refresh_nodes_if_not_up(host); h = 0: host is None
-TRefresh       == T("Refresh", 0, "", FALSE)      \* refresh_node_list_and_token_map()
-TOnUp(h)       == T("OnUp", h, "", FALSE)         \* Cluster.on_up(host)
-TRemoveHost(h) == T("RemoveHost", h, "", FALSE)   \* Cluster.remove_host(host); h = 0: None
-TSchema(x)     == T("Schema", 0, x, FALSE)        \* refresh_schema(event kwargs)
-TOnDown(h)     == T("OnDown", h, "", FALSE)       \* Cluster.on_down(host, is_host_addition=False)   (executor only)
-TReconnect     == T("Reconnect", 0, "", FALSE)    \* ControlConnection._reconnect                     (executor only)
-THRecon(h, c)  == T("HRecon", h, "", c)           \* _HostReconnectionHandler.run; c = cancelled
-TCRecon(c)     == T("CRecon", 0, "", c)           \* _ControlReconnectionHandler.run; c = cancelled
+T(k, h, x, c, a) == [k |-> k, h |-> h, x |-> x, c |-> c, a |-> a]
+NoT            == T("none", 0, "", FALSE, FALSE)
+TRefreshIf(h)  == T("RefreshIf", h, "", FALSE, FALSE)    \* _refresh_nodes_if_not_up(host); h = 0: host is None
+TRefresh       == T("Refresh", 0, "", FALSE, FALSE)      \* refresh_node_list_and_token_map()
+TOnUp(h)       == T("OnUp", h, "", FALSE, FALSE)         \* Cluster.on_up(host)
+TRemoveHost(h) == T("RemoveHost", h, "", FALSE, FALSE)   \* Cluster.remove_host(host); h = 0: None
+TSchema(x)     == T("Schema", 0, x, FALSE, FALSE)        \* refresh_schema(event kwargs)
+TOnDown(h)     == T("OnDown", h, "", FALSE, FALSE)       \* Cluster.on_down(host, is_host_addition=False)   (executor only)
+TReconnect     == T("Reconnect", 0, "", FALSE, FALSE)    \* ControlConnection._reconnect                     (executor only)
+THRecon(h, c)  == T("HRecon", h, "", c, FALSE)           \* _HostReconnectionHandler.run; c = cancelled
+TCRecon(c, a)  == T("CRecon", 0, "", c, a)               \* _ControlReconnectionHandler.run; c = cancelled, a = it is the
+                                                         \* handler ControlConnection._reconnection_handler refers to
 UniqueKinds    == {"RefreshIf", "Refresh", "OnUp", "RemoveHost", "Schema"}      \* scheduled through schedule_unique
 
 (* a control reconnection in flight: via direct (_reconnect) / handler (run), canc = the handler was cancelled,   *)
-(* plan = hosts of the query plan not yet tried, conn = host of the connection established (0: none yet)          *)
-R(via, canc, plan, conn) == [via |-> via, canc |-> canc, plan |-> plan, conn |-> conn]
-NoR == R("", FALSE, <<>>, 0)
+(* att = it is the handler _reconnection_handler refers to, plan = hosts of the query plan not yet tried, conn =  *)
+(* host of the connection established (0: none yet), st = "inst": a handler past its `if not self._cancelled`,    *)
+(* about to call _set_new_connection (else "run")                                                                 *)
+R(via, canc, att, plan, conn, st) == [via |-> via, canc |-> canc, att |-> att, plan |-> plan, conn |-> conn, st |-> st]
+NoR == R("", FALSE, FALSE, <<>>, 0, "run")
 
 EmptyBag == <<>>
 BagAdd(b, t) == IF t \in DOMAIN b THEN [b EXCEPT ![t] = @ + 1] ELSE b @@ (t :> 1)
@@ -168,12 +177,17 @@ CancelHost(st, h) ==
     ELSE [st EXCEPT !.hrec = @ \ {h},
                     !.sched = BagMap(@, LAMBDA t : CancelHT(t, h)),
                     !.exec = BagMap(@, LAMBDA t : CancelHT(t, h))]
-(* cancel() of the control connection's handler (it stays referenced) *)
-CancelCT(t) == IF t.k = "CRecon" THEN [t EXCEPT !.c = TRUE] ELSE t
-CancelCR(r) == IF r.via = "handler" THEN [r EXCEPT !.canc = TRUE] ELSE r
+(* cancel() of the handler the control connection refers to (it stays referenced) *)
+CancelCT(t) == IF t.k = "CRecon" /\ t.a THEN [t EXCEPT !.c = TRUE] ELSE t
+CancelCR(r) == IF r.via = "handler" /\ r.att THEN [r EXCEPT !.canc = TRUE] ELSE r
 CancelCtl(st) ==
     IF ~st.chand THEN st
     ELSE [st EXCEPT !.sched = BagMap(@, CancelCT), !.exec = BagMap(@, CancelCT), !.rcs = BagMap(@, CancelCR)]
+(* _reconnection_handler = None (or another handler): the one referred to so far, if any, goes on unreferenced *)
+DetachCT(t) == IF t.k = "CRecon" /\ t.a THEN [t EXCEPT !.a = FALSE] ELSE t
+DetachCR(r) == IF r.via = "handler" /\ r.att THEN [r EXCEPT !.att = FALSE] ELSE r
+DetachCtl(st) ==
+    [st EXCEPT !.chand = FALSE, !.sched = BagMap(@, DetachCT), !.exec = BagMap(@, DetachCT), !.rcs = BagMap(@, DetachCR)]
 
 (* Cluster.on_up without sessions: no pool future, the host is marked up at once *)
 OnUpE(st, h) ==
@@ -247,8 +261,8 @@ RunTask(st, t) ==
       [] t.k = "RemoveHost" -> IF t.h = 0 THEN st ELSE RemoveHostE(st, t.h)
       [] t.k = "Schema"     -> SchemaE(st, t.x)
       [] t.k = "OnDown"     -> RunOnDown(st, t.h)
-      [] t.k = "Reconnect"  -> [st EXCEPT !.rcs = BagAdd(@, R("direct", FALSE, PlanOf(st), 0))]
-      [] t.k = "CRecon"     -> IF t.c THEN st ELSE [st EXCEPT !.rcs = BagAdd(@, R("handler", FALSE, PlanOf(st), 0))]
+      [] t.k = "Reconnect"  -> [st EXCEPT !.rcs = BagAdd(@, R("direct", FALSE, FALSE, PlanOf(st), 0, "run"))]
+      [] t.k = "CRecon"     -> IF t.c THEN st ELSE [st EXCEPT !.rcs = BagAdd(@, R("handler", FALSE, t.a, PlanOf(st), 0, "run"))]
       [] t.k = "HRecon"     ->
             IF t.c THEN st
             ELSE IF t.h \in alive
@@ -256,23 +270,32 @@ RunTask(st, t) ==
                  ELSE Schedule(st, THRecon(t.h, FALSE))                \* next attempt
 
 (* one step of a control reconnection in flight *)
-StepKind(r) == IF r.conn # 0 THEN "set" ELSE IF r.plan = <<>> THEN "nohost" ELSE "try"
+StepKind(r) == IF r.st = "inst" THEN "inst" ELSE IF r.conn # 0 THEN "set" ELSE IF r.plan = <<>> THEN "nohost" ELSE "try"
 
-(* the connection is there.  _reconnect: _set_new_connection(conn).  Handler run(): `if not self._cancelled`:        *)
-(* on_reconnection -> _set_new_connection(conn), callback clearing _reconnection_handler; `finally: conn.close()`  *)
+(* _set_new_connection(conn): the old connection is closed; after ControlConnection.shutdown() the new one is *)
+Install(st, r) == IF CcShut THEN st ELSE [st EXCEPT !.ctl = [h |-> r.conn, st |-> "open"]]
+
+(* _reconnect_internal has returned the connection.  _reconnect installs it; a handler's run() first looks at its  *)
+(* _cancelled flag (cancelled while connecting: the connection is just closed)                                    *)
 RcSet(st, r) ==
-    LET s1 == IF CcShut THEN st ELSE [st EXCEPT !.ctl = [h |-> r.conn, st |-> "open"]]     \* the old connection is closed
-    IN IF r.via = "direct" THEN s1
-       ELSE IF r.canc THEN st                                     \* cancelled while connecting: the connection is just closed
-       ELSE LET s2 == [s1 EXCEPT !.chand = FALSE] IN
-            IF CcShut \/ "D_handler_close" \in Fixed THEN s2
-            ELSE [s2 EXCEPT !.ctl.st = "closed"]                  \* the connection just installed is closed by run()
+    IF r.via = "direct" THEN Install(st, r)
+    ELSE IF r.canc THEN st
+    ELSE [st EXCEPT !.rcs = BagAdd(@, [r EXCEPT !.st = "inst"])]
+
+(* the handler's on_reconnection -> _set_new_connection(conn); its callback _get_and_set_reconnection_handler(None); *)
+(* `finally: conn.close()`.  As built the callback clears whatever handler is referred to - a newer one if this one  *)
+(* was cancelled and replaced since its `if not self._cancelled` (D_stale_clear); and run() closes the connection    *)
+(* just installed (D_handler_close).                                                                                *)
+RcInst(st, r) ==
+    LET s1 == Install(st, r)
+        s2 == IF "D_stale_clear" \in Fixed /\ ~r.att THEN s1 ELSE DetachCtl(s1)
+    IN IF CcShut \/ "D_handler_close" \in Fixed THEN s2 ELSE [s2 EXCEPT !.ctl.st = "closed"]
 
 (* the query plan is exhausted: NoHostAvailable *)
 RcNoHost(st, r) ==
-    IF r.via = "direct"
-    THEN Schedule([CancelCtl(st) EXCEPT !.chand = TRUE], TCRecon(FALSE))       \* _reconnect: cancel, new handler, start()
-    ELSE Schedule(st, TCRecon(r.canc))                                         \* run(): on_exception -> next attempt
+    IF r.via = "direct"                                           \* _reconnect: cancel, new handler, start()
+    THEN Schedule([DetachCtl(CancelCtl(st)) EXCEPT !.chand = TRUE], TCRecon(FALSE, TRUE))
+    ELSE Schedule(st, TCRecon(r.canc, r.att))                     \* run(): on_exception -> next attempt
 
 (* _try_connect(head of the plan); rest = the thread if it goes on *)
 RcTry(st, r) ==
@@ -286,7 +309,8 @@ RcTry(st, r) ==
             IN add(s2, [more EXCEPT !.conn = h])
 
 RunStep(st, r) ==
-    CASE StepKind(r) = "set"    -> RcSet(st, r)
+    CASE StepKind(r) = "inst"   -> RcInst(st, r)
+      [] StepKind(r) = "set"    -> RcSet(st, r)
       [] StepKind(r) = "nohost" -> RcNoHost(st, r)
       [] OTHER                  -> RcTry(st, r)
 
@@ -484,7 +508,8 @@ RemovedOnce == \A h \in Hosts : nrem[h] <= 1
 
 (* the connection a reconnection installs is open (and was registered and fully refreshed by its _try_connect) *)
 InstalledOpen ==
-    (act.name = "RcStep" /\ act.kind = "set" /\ ~CcShut /\ ~(act.r.via = "handler" /\ act.r.canc)) => (ctl.st = "open" /\ ctl.h = act.r.conn)
+    (act.name = "RcStep" /\ ~CcShut /\ (act.kind = "inst" \/ (act.kind = "set" /\ act.r.via = "direct")))
+        => (ctl.st = "open" /\ ctl.h = act.r.conn)
 (* nothing pending anywhere, control connection in use: the metadata mirrors the ring - whatever was lost meanwhile *)
 Idle == /\ exec = EmptyBag /\ rcs = EmptyBag
         /\ \A e \in DOMAIN sched : e.k = "HRecon" \/ (e.k = "CRecon" /\ e.c)
@@ -493,11 +518,13 @@ Fresh == (phase = 0 /\ Idle /\ ctl.st = "open") => ToSet(known) = ring
 (* the reconnection handler: at most one live, and while it is attached it has its next attempt pending or running *)
 LiveHandlers == BagCount(sched, LAMBDA t : t.k = "CRecon" /\ ~t.c) + BagCount(exec, LAMBDA t : t.k = "CRecon" /\ ~t.c)
                 + BagCount(rcs, LAMBDA r : r.via = "handler" /\ ~r.canc)
+LiveAttached == BagCount(sched, LAMBDA t : t.k = "CRecon" /\ ~t.c /\ t.a) + BagCount(exec, LAMBDA t : t.k = "CRecon" /\ ~t.c /\ t.a)
+                + BagCount(rcs, LAMBDA r : r.via = "handler" /\ ~r.canc /\ r.att)
 OneHandler   == LiveHandlers <= 1 /\ (LiveHandlers = 1 => chand)
-KeepsTrying  == (chand /\ ~SchedShut) => LiveHandlers = 1
+KeepsTrying  == (chand /\ ~SchedShut) => LiveAttached = 1
 
 (* shutdown *)
-Uncancel(b) == BagMap(b, LAMBDA t : [t EXCEPT !.c = FALSE])
+Uncancel(b) == BagMap(b, LAMBDA t : [t EXCEPT !.c = FALSE, !.a = FALSE])
 SchedFrozen == phase >= 1 => Uncancel(sched) = Uncancel(frozen.sched)     \* nothing is scheduled, nothing fires (handlers may be cancelled)
 MetaFrozen  == phase >= 2 => up = frozen.up /\ ToSet(known) \subseteq frozen.known
 NoLeak      == Returned => OpenConns(cs) = {}
@@ -506,7 +533,8 @@ NoLeak      == Returned => OpenConns(cs) = {}
 \* vacuity witnesses (negated reachability; each must be found violated)
 Witness_Dedup          == ~(act.name = "Push" /\ act.kind = "NEW" /\ ~act.f /\ act.d)
 Witness_SecondAfterRun == ~(\E x \in Targets : TSchema(x) \in DOMAIN sched /\ TSchema(x) \in DOMAIN exec)
-Witness_HandlerInstall == ~(act.name = "RcStep" /\ act.kind = "set" /\ act.r.via = "handler" /\ ~CcShut)
+Witness_HandlerInstall == ~(act.name = "RcStep" /\ act.kind = "inst" /\ ~CcShut)
+Witness_CancelledLate  == ~(act.name = "RcStep" /\ act.kind = "inst" /\ act.r.canc /\ ~act.r.att /\ ~CcShut)
 Witness_SwitchedHost   == ~(ctl.st = "open" /\ ctl.h # 1 /\ phase = 0)
 Witness_EventOnNewConn == ~(act.name = "Push" /\ (ctl.st # "open" \/ ctl.h # act.c))
 Witness_LostRingEvent  == ~(act.name \in {"RingAdd", "RingRemove"} /\ ~act.f)
@@ -521,10 +549,12 @@ Witness_FreshAfterLoss == ~(phase = 0 /\ Idle /\ ctl.st = "open" /\ ring # Ring0
 (* evaluated on every state of a run with CONSTRAINT RecordWitnesses (-workers 1); POSTCONDITION PrintWitnesses *)
 WitnessNames == <<"Witness_Dedup", "Witness_SecondAfterRun", "Witness_HandlerInstall", "Witness_SwitchedHost",
                   "Witness_EventOnNewConn", "Witness_LostRingEvent", "Witness_TwoReconnects", "Witness_ShutMidSwitch",
-                  "Witness_RefreshFails", "Witness_RetryLoop", "Witness_RemovedByEvent", "Witness_FreshAfterLoss">>
+                  "Witness_RefreshFails", "Witness_RetryLoop", "Witness_RemovedByEvent", "Witness_FreshAfterLoss",
+                  "Witness_CancelledLate">>
 WitnessVals == <<Witness_Dedup, Witness_SecondAfterRun, Witness_HandlerInstall, Witness_SwitchedHost,
                  Witness_EventOnNewConn, Witness_LostRingEvent, Witness_TwoReconnects, Witness_ShutMidSwitch,
-                 Witness_RefreshFails, Witness_RetryLoop, Witness_RemovedByEvent, Witness_FreshAfterLoss>>
+                 Witness_RefreshFails, Witness_RetryLoop, Witness_RemovedByEvent, Witness_FreshAfterLoss,
+                 Witness_CancelledLate>>
 ASSUME TLCSet(2, {})
 WitnessesHere == {WitnessNames[i] : i \in {j \in 1..Len(WitnessNames) : ~WitnessVals[j]}}
 RecordWitnesses == IF WitnessesHere \subseteq TLCGet(2) THEN TRUE ELSE TLCSet(2, TLCGet(2) \cup WitnessesHere)
